@@ -106,9 +106,9 @@ fn anchor_kernel<const FN: usize, const HN: usize>() {
     kani::cover!(!got && fl >= 1 && fl < hl, "W:anchor.rejected");
 }
 #[kani::proof]
-#[kani::unwind(8)]
+#[kani::unwind(9)]
 fn c02_anchor() {
-    anchor_kernel::<2, 5>();
+    anchor_kernel::<3, 6>();
 }
 #[kani::proof]
 #[kani::unwind(10)]
